@@ -5,10 +5,12 @@ CONSTANTS
   Keys <- K13
   Vals <- V5
   MaxRows = 5
-  Script = FALSE
-  WithEnv = TRUE
-  Depth = 12
-  GenActs <- ActsAll
+  Script = TRUE
+  WithEnv = FALSE
+  Depth = 10
+  Weight = 1
+  ErrFrom = 3
+  GenActs <- ActsCommitFail
 INIT GenInit
 NEXT GenNext
 CONSTRAINT Emit
